@@ -138,6 +138,7 @@ type World struct {
 	constCache map[*ssa.Const]Value
 	initDone   map[*ssa.Package]bool
 	inInit     bool
+	findObl    map[string][]string // finding id -> obligation patterns it may explain
 	forced     []ndValue // model replay: nondeterministic values fixed to a vector
 	forcedPos  int
 	shard      int
@@ -538,7 +539,7 @@ func (w *World) recordFailure(fail *Term, name, kind, msg, where string) {
 	f := &Failure{Harness: w.harness, Obligation: name, Kind: kind, Msg: msg, Where: where, FindVecs: map[string][]ndValue{}}
 	var open []*Term
 	for _, fd := range w.findings {
-		if !w.openFinds[fd.id] {
+		if !w.openFinds[fd.id] || !w.findingCovers(fd.id, name) {
 			continue
 		}
 		open = append(open, fd.cond)
@@ -574,6 +575,19 @@ func (w *World) recordFailure(fail *Term, name, kind, msg, where string) {
 	}
 	w.failSeen[key] = true
 	w.res.Failures = append(w.res.Failures, f)
+}
+
+func (w *World) findingCovers(fid, obligation string) bool {
+	pats := w.findObl[fid]
+	if len(pats) == 0 {
+		return true
+	}
+	for _, p := range pats {
+		if p == obligation || (strings.HasSuffix(p, "*") && strings.HasPrefix(obligation, strings.TrimSuffix(p, "*"))) {
+			return true
+		}
+	}
+	return false
 }
 
 func (w *World) reach(name string) {
